@@ -249,6 +249,58 @@ func TestBounded_C16(t *testing.T) {
 			}
 		}
 	}
+	// a tall tree: keys of a high layer split many levels below them
+	for _, bf := range []uint{2, 4} {
+		st := newBStore("mem://cost-tall")
+		model := map[int]int{}
+		n := 2100
+		top := int(bf * bf * bf * bf * bf)
+		for top*int(bf) <= n {
+			top *= int(bf)
+		}
+		for k := 1; k <= n; k++ {
+			// leave out the keys of layer >= 4 (inserted below), but keep the highest-layer ones
+			// so that the height does not change when those are inserted
+			if k%int(bf*bf*bf*bf) != 0 || k%top == 0 {
+				model[k] = k % 5
+			}
+		}
+		base, err := bBuild(bf, V115Binary, st, model, 0, false)
+		if err != nil {
+			continue
+		}
+		root, err := base.MakeRoot(bctx)
+		if err != nil {
+			continue
+		}
+		h := int(root.Height)
+		step := int(bf * bf * bf * bf)
+		for k := step; k <= n; k += step {
+			if _, present := model[k]; present {
+				continue
+			}
+			m, err := root.LoadMast(bctx, bCfg(st, nil))
+			if err != nil {
+				break
+			}
+			st.reset()
+			if err := m.Insert(bctx, k, 1); err == nil && int(m.Height()) == h {
+				cases++
+				if l, _ := st.counts(); l > 2*(h+1) {
+					bViolation(t, "C16", "insert-reads", "tall tree bf=%d (%d entries, height %d): Insert(%d,1) of a layer-%d key (height unchanged) read %d nodes, 2*(height+1)=%d", bf, len(model), h, k, intLayer(int64(k), bf), l, 2*(h+1))
+				}
+			}
+			var x int
+			m, _ = root.LoadMast(bctx, bCfg(st, nil))
+			st.reset()
+			if _, err := m.Get(bctx, k+1, &x); err == nil {
+				cases++
+				if l, _ := st.counts(); l > h+1 {
+					bViolation(t, "C16", "get-reads", "tall tree bf=%d height %d: Get(%d) read %d nodes", bf, h, k+1, l)
+				}
+			}
+		}
+	}
 	bStat("C16.cases", cases)
 }
 
